@@ -13,6 +13,7 @@ fidelity of msgpack for array leaves, and that the layout hypothesis `hpres` hol
 optimizers (that is property C07; here it is evaluated on every run).
 -/
 import PrecondVerif.Lemmas.PyTree
+import PrecondVerif.Lemmas.Layout
 
 namespace PrecondVerif.C14
 open PrecondVerif.Ser
@@ -85,6 +86,15 @@ theorem resume_eq_uninterrupted {G U : Type} (step : PyTree α σ → G → U ×
     resume step tmpl s₀ gs k = .ok (run step s₀ gs) :=
   resume_ok step hpres tmpl s₀ hwf hsame gs k
 
+/-- The same with the weakest hypothesis on the step: an invariant `P` of the reachable states that
+pins their skeleton (the step need not preserve the layout of states that never occur). -/
+theorem resume_eq_uninterrupted_of_invariant {G U : Type} (step : PyTree α σ → G → U × PyTree α σ)
+    (P : PyTree α σ → Prop) (tmpl s₀ : PyTree α σ) (hP0 : P s₀) (hPstep : ∀ s g, P s → P (step s g).2)
+    (hPskel : ∀ s, P s → sameStatic s s₀) (hwf : wf s₀ = true) (hsame : sameStatic tmpl s₀)
+    (gs : List G) (k : Nat) :
+    resume step tmpl s₀ gs k = .ok (run step s₀ gs) :=
+  resume_ok_inv step P tmpl s₀ hP0 hPstep hPskel hwf hsame gs k
+
 /-- Checkpointing through the state dict after every single step changes nothing. -/
 theorem checkpoint_every_step {G U : Type} (step : PyTree α σ → G → U × PyTree α σ)
     (hpres : ∀ s g, skeleton (step s g).2 = skeleton s)
@@ -112,6 +122,54 @@ theorem hidden_state_breaks_resume :
   refine ⟨fun hs g => (g + (hs.1 : Int), (hs.1 + 1, hs.2)), .leaf 0, fun _ _ _ => rfl, ?_⟩
   decide
 
+section layoutInstances
+variable {G U : Type}
+
+/-! ### instances for the layout models of C07 (`Model/Layout.lean`)
+
+`layoutOf` reads the C07 layout off a state tree and `skel` is the tree shape the initial layout denotes.
+A value-level step function whose states of that layout have that shape (`hskel`) and whose layout moves
+as the C07 layout model says (`hstep`; the C07 check ties that model to the real `update` on every run)
+resumes exactly, because the initial layout is a fixed point of the layout step (C07's lemmas). -/
+
+/-- Distributed Shampoo (replicated / pmap layouts), any configuration whose update is not rejected. -/
+theorem ds_resume_eq_uninterrupted (c : Layout.Cfg) (ps : List (List Nat)) (hacc : Layout.stepRejects c ps = none)
+    (layoutOf : PyTree α σ → Layout.DSLayout) (skel : PyTree Unit σ)
+    (hskel : ∀ s, layoutOf s = Layout.initLayout c ps → skeleton s = skel)
+    (step : PyTree α σ → G → U × PyTree α σ)
+    (hstep : ∀ s g, layoutOf s = Layout.initLayout c ps → Layout.layoutStep c ps (layoutOf s) = .ok (layoutOf (step s g).2))
+    (tmpl s₀ : PyTree α σ) (h0 : layoutOf s₀ = Layout.initLayout c ps) (ht : layoutOf tmpl = Layout.initLayout c ps)
+    (hwf : wf s₀ = true) (gs : List G) (k : Nat) :
+    resume step tmpl s₀ gs k = .ok (run step s₀ gs) :=
+  resume_of_layout_fixpoint layoutOf (Layout.layoutStep c ps) (Layout.initLayout c ps)
+    (by rw [Layout.layoutStep_init, hacc]) skel hskel step hstep tmpl s₀ h0 ht hwf gs k
+
+/-- SM3. -/
+theorem sm3_resume_eq_uninterrupted (ps : List (List Nat))
+    (layoutOf : PyTree α σ → List Layout.SM3Param) (skel : PyTree Unit σ)
+    (hskel : ∀ s, layoutOf s = ps.map Layout.sm3InitParam → skeleton s = skel)
+    (step : PyTree α σ → G → U × PyTree α σ)
+    (hstep : ∀ s g, layoutOf s = ps.map Layout.sm3InitParam → Layout.sm3Step ps (layoutOf s) = .ok (layoutOf (step s g).2))
+    (tmpl s₀ : PyTree α σ) (h0 : layoutOf s₀ = ps.map Layout.sm3InitParam) (ht : layoutOf tmpl = ps.map Layout.sm3InitParam)
+    (hwf : wf s₀ = true) (gs : List G) (k : Nat) :
+    resume step tmpl s₀ gs k = .ok (run step s₀ gs) :=
+  resume_of_layout_fixpoint layoutOf (Layout.sm3Step ps) (ps.map Layout.sm3InitParam)
+    (Layout.sm3Step_init ps) skel hskel step hstep tmpl s₀ h0 ht hwf gs k
+
+/-- Tearfree (Shampoo / Sketchy, every grafting and momentum option). -/
+theorem tearfree_resume_eq_uninterrupted (c : Layout.TFCfg) (ps : List (List Nat)) (L : Layout.TFLayout) (hinit : Layout.tfInit c ps = .ok L)
+    (layoutOf : PyTree α σ → Layout.TFLayout) (skel : PyTree Unit σ)
+    (hskel : ∀ s, layoutOf s = L → skeleton s = skel)
+    (step : PyTree α σ → G → U × PyTree α σ)
+    (hstep : ∀ s g, layoutOf s = L → Layout.tfStep c (layoutOf s) = .ok (layoutOf (step s g).2))
+    (tmpl s₀ : PyTree α σ) (h0 : layoutOf s₀ = L) (ht : layoutOf tmpl = L)
+    (hwf : wf s₀ = true) (gs : List G) (k : Nat) :
+    resume step tmpl s₀ gs k = .ok (run step s₀ gs) :=
+  resume_of_layout_fixpoint layoutOf (Layout.tfStep c) (L)
+    (Layout.tfStep_init c ps L hinit) skel hskel step hstep tmpl s₀ h0 ht hwf gs k
+
+end layoutInstances
+
 /-! ### the hypotheses are satisfiable: a quantized Shampoo-like state -/
 
 /-- `ShampooState(count, stats=[ParameterStats(statistics=[QuantizedValue(…)], avg_grad=MaskedNode())])` -/
@@ -135,5 +193,37 @@ example : resume toyStep (exState 0 0 0 0) (exState 3 1 2 5) [1, -2, 4] 2
     = .ok (run toyStep (exState 3 1 2 5) [1, -2, 4]) :=
   toyStep_resume (exState 0 0 0 0) (exState 3 1 2 5) (by decide) rfl _ _
 example : (run toyStep (exState 3 1 2 5) [1, -2]).1 = [37, 103] := by decide
+
+/-- an SM3 state: `SM3State(count, stats={'w': ParameterStats([acc], QuantizedValue(...))})` -/
+def exSM3 (c a m : Int) : PyTree Int String :=
+  .node (.namedtuple "SM3State") [("count", .leaf c), ("stats", .node .dict [("w",
+    .node (.namedtuple "ParameterStats") [("diagonal_statistics", PyTree.list [.leaf a]),
+      ("diagonal_momentum", .node (.dataclass "QuantizedValue" [("quantized_dtype", "int8")]) [("quantized", .leaf m)])])])]
+
+open Classical in
+/-- the hypotheses of the SM3 instance are satisfiable: layout read off the skeleton, toy step -/
+example (gs : List Int) (k : Nat) :
+    resume toyStep (exSM3 0 0 0) (exSM3 3 1 2) gs k = .ok (run toyStep (exSM3 3 1 2) gs) := by
+  let skel : PyTree Unit String := skeleton (exSM3 0 0 0)
+  let L := [[2]].map Layout.sm3InitParam
+  let layoutOf : PyTree Int String → List Layout.SM3Param := fun s => if skeleton s = skel then L else []
+  have hL : L ≠ [] := by simp [L]
+  have key : ∀ s, layoutOf s = L → skeleton s = skel := by
+    intro s h
+    by_cases hs : skeleton s = skel
+    · exact hs
+    · simp only [layoutOf, if_neg hs] at h; exact absurd h.symm hL
+  refine sm3_resume_eq_uninterrupted [[2]] layoutOf skel key toyStep ?_ _ _ ?_ ?_ (by decide) gs k
+  · intro s g hs
+    have h1 := key s hs
+    have h2 : skeleton (toyStep s g).2 = skel := (skeleton_mapLeaves _ s).trans h1
+    rw [hs]
+    show Layout.sm3Step [[2]] ([[2]].map Layout.sm3InitParam) = _
+    rw [Layout.sm3Step_init]
+    simp only [layoutOf, if_pos h2]; rfl
+  · have h : skeleton (exSM3 3 1 2) = skel := rfl
+    simp only [layoutOf, if_pos h]; rfl
+  · have h : skeleton (exSM3 0 0 0) = skel := rfl
+    simp only [layoutOf, if_pos h]; rfl
 
 end PrecondVerif.C14
